@@ -335,6 +335,29 @@ structure LInfo where
   params : Option (List PVal)
   deriving Repr, DecidableEq, Inhabited
 
+def infoOf (ln : Line) : LInfo := { bf := ln.bf, model := ln.model, params := ln.params }
+
+/-- the loop over the daughters of one line: a daughter in the stable set stays a name; else the
+    chain of the daughter is built (`rec`), and `DecayNotFound` leaves the bare name -/
+def buildItems (rec : String → Except SemErr (Chain LInfo)) (stable : List String) :
+    List String → Except SemErr (List (Item LInfo))
+  | [] => .ok []
+  | p :: r =>
+    if stable.contains p then (buildItems rec stable r).map (Sum.inl p :: ·)
+    else match rec p with
+      | .ok c => (buildItems rec stable r).map (Sum.inr c :: ·)
+      | .error (.decayNotFound _) => (buildItems rec stable r).map (Sum.inl p :: ·)
+      | .error e => .error e
+
+/-- the loop over the decay lines of the mother -/
+def buildLines (rec : String → Except SemErr (Chain LInfo)) (stable : List String) :
+    List Line → Except SemErr (List (CMode LInfo))
+  | [] => .ok []
+  | ln :: r =>
+    match buildItems rec stable ln.ds with
+    | .error e => .error e
+    | .ok fs => (buildLines rec stable r).map ((infoOf ln, fs) :: ·)
+
 /-- `build_decay_chains(mother, stable_particles)`; `fuel` bounds the recursion depth (Python
     recurses freely and only stops on `DecayNotFound`) -/
 def buildChains (t : Tables) (stable : List String) : Nat → String → Except SemErr (Chain LInfo)
@@ -342,16 +365,6 @@ def buildChains (t : Tables) (stable : List String) : Nat → String → Except 
   | f + 1, m =>
     match t.find? (·.1 == m) with
     | none => .error (.decayNotFound m)
-    | some (_, ls) => do
-      let modes ← ls.mapM fun ln => do
-        let fs ← ln.ds.mapM fun p =>
-          if stable.contains p then (pure (Sum.inl p) : Except SemErr (Item LInfo))
-          else match buildChains t stable f p with
-            | .ok c => pure (Sum.inr c)
-            | .error (.decayNotFound _) => pure (Sum.inl p)
-            | .error e => throw e
-        pure (({ bf := ln.bf, model := ln.model, params := ln.params } : LInfo), fs)
-      pure (.mk m modes)
-
+    | some (_, ls) => (buildLines (fun p => buildChains t stable f p) stable ls).map (.mk m)
 
 end DL
